@@ -612,11 +612,21 @@ func (ctx Ctx) methodExpr(call *ast.CallExpr) coq.Expr {
 	return retExpr
 }
 
+// sliceIndex translates an index, bound, length or capacity of a slice
+// operation; GooseLang's slice library works with 64-bit integers only, so
+// narrower integers are widened.
+func (ctx Ctx) sliceIndex(e ast.Expr) coq.Expr {
+	if info, ok := getIntegerType(ctx.typeOf(e)); ok && !info.isUntyped && info.width != 64 {
+		return coq.NewCallExpr(coq.GallinaIdent("to_u64"), ctx.expr(e))
+	}
+	return ctx.expr(e)
+}
+
 func (ctx Ctx) makeSliceExpr(elt coq.Type, args []ast.Expr) coq.CallExpr {
 	if len(args) == 2 {
-		return coq.NewCallExpr(coq.GallinaIdent("NewSlice"), elt, ctx.expr(args[1]))
+		return coq.NewCallExpr(coq.GallinaIdent("NewSlice"), elt, ctx.sliceIndex(args[1]))
 	} else if len(args) == 3 {
-		return coq.NewCallExpr(coq.GallinaIdent("NewSliceWithCap"), elt, ctx.expr(args[1]), ctx.expr(args[2]))
+		return coq.NewCallExpr(coq.GallinaIdent("NewSliceWithCap"), elt, ctx.sliceIndex(args[1]), ctx.sliceIndex(args[2]))
 	} else {
 		ctx.unsupported(args[0], "Too many or too few arguments in slice construction")
 		return coq.CallExpr{}
@@ -1003,16 +1013,16 @@ func (ctx Ctx) sliceExpr(e *ast.SliceExpr) coq.Expr {
 	if e.Low != nil && e.High == nil {
 		return coq.NewCallExpr(coq.GallinaIdent("SliceSkip"),
 			ctx.coqTypeOfType(e, sliceElem(ctx.typeOf(e.X))),
-			x, ctx.expr(e.Low))
+			x, ctx.sliceIndex(e.Low))
 	}
 	if e.Low == nil && e.High != nil {
 		return coq.NewCallExpr(coq.GallinaIdent("SliceTake"),
-			x, ctx.expr(e.High))
+			x, ctx.sliceIndex(e.High))
 	}
 	if e.Low != nil && e.High != nil {
 		return coq.NewCallExpr(coq.GallinaIdent("SliceSubslice"),
 			ctx.coqTypeOfType(e, sliceElem(ctx.typeOf(e.X))),
-			x, ctx.expr(e.Low), ctx.expr(e.High))
+			x, ctx.sliceIndex(e.Low), ctx.sliceIndex(e.High))
 	}
 	if e.Low == nil && e.High == nil {
 		ctx.unsupported(e, "complete slice doesn't do anything")
@@ -1052,7 +1062,7 @@ func (ctx Ctx) unaryExpr(e *ast.UnaryExpr) coq.Expr {
 			if xTy, ok := ctx.typeOf(x.X).(*types.Slice); ok {
 				return coq.NewCallExpr(coq.GallinaIdent("SliceRef"),
 					ctx.coqTypeOfType(e, xTy.Elem()),
-					ctx.expr(x.X), ctx.expr(x.Index))
+					ctx.expr(x.X), ctx.sliceIndex(x.Index))
 			}
 		}
 		if info, ok := ctx.getStructInfo(ctx.typeOf(e.X)); ok {
@@ -1157,7 +1167,7 @@ func (ctx Ctx) indexExpr(e *ast.IndexExpr, isSpecial bool) coq.CallExpr {
 	case *types.Slice:
 		return coq.NewCallExpr(coq.GallinaIdent("SliceGet"),
 			ctx.coqTypeOfType(e, xTy.Elem()),
-			ctx.expr(e.X), ctx.expr(e.Index))
+			ctx.expr(e.X), ctx.sliceIndex(e.Index))
 	}
 	ctx.unsupported(e, "index into unknown type %v", xTy)
 	return coq.CallExpr{}
@@ -1659,7 +1669,7 @@ func (ctx Ctx) assignFromTo(s ast.Node,
 				coq.GallinaIdent("SliceSet"),
 				ctx.coqTypeOfType(lhs, targetTy.Elem()),
 				ctx.expr(lhs.X),
-				ctx.expr(lhs.Index),
+				ctx.sliceIndex(lhs.Index),
 				value))
 		case *types.Map:
 			value := rhs
